@@ -171,6 +171,17 @@ def generate():
     if "filling" not in a1names or "size" not in a1names:
         raise Unsupported("setSize second argument is not filling.size()")
 
+    # the phase space that receives the record: constructor arguments (source text)
+    import re
+    import cxxast
+    with open(cxxast.REPO + "/" + SRC) as fh:
+        flat = re.sub(r"\s+", "", fh.read())
+    rb = flat[flat.index("vfps::HDF5File::readPhaseSpace("):]
+    mm = re.findall(r"std::make_unique<PhaseSpace>\(((?:[^()]|\([^()]*\))*)\);", rb[:rb.index("returnps;")])
+    if len(mm) != 1:
+        raise Unsupported("creation of the loaded phase space")
+    ctor_args = mm[0].split(",")
+
     def lst(xs):
         return "[" + ", ".join(xs) + "]"
     out = ["/- GENERATED by translator/gen_h5read.py from %s (sha256 %s).\n   Do not edit: overwritten by every check run. -/"
@@ -195,6 +206,8 @@ def generate():
     out.append("  [\n" + ",\n".join(rows) + "]\n")
     out += ["/-- the phase space that receives the record is created for this filling, after `setSize(ps_size, filling.size())` -/",
             "def fillingOfLoaded : List String := %s" % lst('"%s"' % f for f in fill),
+            "/-- … with these constructor arguments (box and scales of the CURRENT run, as handed over by main(); no data: the record is read into it) -/",
+            "def loadedCtorArgs : List String := %s" % lst('"%s"' % a for a in ctor_args),
             "/-- the record is read only if this holds, otherwise the reader throws -/",
             'def sizeTest : String := "%s"\n' % sizecheck,
             "end Inovesa.Gen.H5Read"]
